@@ -914,7 +914,7 @@ func runC12(c *core.Ctx, o Options) {
 		})
 		okF := prep != nil && len(writes) > 0
 		for _, w := range writes {
-			if !an.Dominates(prep, w) {
+			if prep == nil || !an.Dominates(prep, w) {
 				okF = false
 			}
 		}
@@ -953,9 +953,55 @@ func runC12(c *core.Ctx, o Options) {
 	}
 	// ---- (g) type table
 	checkTypeTable(c, "g", gpkg.Types)
+	// ---- (j) the protocol version constant: "<type>.<major>.<minor>" of the schema's root attributes, in that order (both shipped
+	// schemas are 4.4, so a swap is invisible in the reference package)
+	checkVersionString(c, "j", gen)
+	// ---- (k) the syntax gate: go/format.Source is the only thing that parses the rendered text before it is written; when it
+	// fails, generation fails (panic or error) — a schema whose names do not render to valid Go is not "accepted"
+	{
+		nFmt := 0
+		for _, fn := range an.PkgFuncs(gen) {
+			an.AllInstrs(fn, func(in ssa.Instruction) {
+				call, ok := in.(*ssa.Call)
+				if !ok || !an.CalleeIs(&call.Call, "go/format", "Source") {
+					return
+				}
+				nFmt++
+				failing := an.Render(call) + "#1 != nil"
+				bad := ""
+				paths, _ := an.EnumPaths(fn, 256)
+				nFail := 0
+				for _, p := range paths {
+					if !p.Passes(call) || !p.Has(failing) {
+						continue
+					}
+					nFail++
+					if p.Panic {
+						continue
+					}
+					okErr := false
+					if p.Return != nil {
+						for i, r := range p.Results {
+							if r != "nil" && i < fn.Signature.Results().Len() && types.Identical(fn.Signature.Results().At(i).Type(), types.Universe.Lookup("error").Type()) {
+								okErr = true
+							}
+						}
+					}
+					if !okErr {
+						bad = "when go/format rejects the rendered text " + an.NameOf(fn) + " carries on (" + strings.Join(p.Results, ", ") + ")"
+					}
+				}
+				c.Check(bad == "" && nFail > 0, "k", an.NameOf(fn), "text that does not parse as Go stops the generation", call.Pos(), "panic / error on format.Source failure",
+					bad+": a package that does not compile is emitted for a schema the generator reports as accepted")
+			})
+		}
+		c.Check(nFmt >= 1, "k", "", "the formatting step was found", token.NoPos, fmt.Sprint(nFmt), "no call of go/format.Source in the generator: nothing parses the rendered text before it is written")
+	}
 	c.Explanation += " (d) also: no function of the generator writes a package-level variable with something computed from the Generator (a memo keyed by a name outlives the schema and the type mapping; a memo of a function of the key alone, such as parsed templates by their text, is accepted). (e) also: on the way to Generator.write no strings.* transformation is applied to a value built by filepath.* or derived from Execute's parameter (interprocedural backward slice inside the package). (g) also: every <base>+\"Grp\" / <base>+\"Entry\" is built from the group name by one and the same transformation."
+	c.Explanation += " (k) every path on which go/format.Source fails ends in a panic or a non-nil error result: the formatter is the only syntax gate between the templates and the files."
+	c.Explanation += " (j) the text rendered for the beginString variable is the schema's type, major and minor attribute in that order, separated by dots (Sprintf arguments matched to their verbs, or a concatenation)."
 	c.Explanation += " (i) every package qualifier the templates or the type mapping can emit (fix., messages., time.) has its strings.Contains test and import in makeFile. (b) also: a nested component is instantiated with make<Name>(), never with the exported constructor whose parameters depend on the schema. (c″) also: appendGroup records every definition on every path (last one wins)."
-	c.RuleMin = map[string]int{"a": 15, "b": 5, "c": 3, "c′": 3, "c″": 4, "d": 8, "e": 3, "f": 3, "g": 7, "h": 121, "i": 4}
+	c.RuleMin = map[string]int{"a": 15, "b": 5, "c": 3, "c′": 3, "c″": 4, "d": 8, "e": 3, "f": 3, "g": 7, "h": 121, "i": 4, "j": 1, "k": 2}
 	c.MinObl = 150
 }
 
@@ -1440,4 +1486,152 @@ func (b *backSlice) follow(v ssa.Value) {
 			}
 		}
 	}
+}
+
+// checkVersionString (j): wherever the generator renders text from Doc.Major and Doc.Minor, the pieces are type "." major "." minor.
+func checkVersionString(c *core.Ctx, rule string, gpkg *ssa.Package) {
+	docField := func(v ssa.Value) string {
+		f, _ := an.LoadedField(an.Unwrap(v))
+		if f == nil {
+			if fl, ok := an.Unwrap(v).(*ssa.Field); ok {
+				f = an.FieldOf(fl)
+			}
+		}
+		if f == nil {
+			return ""
+		}
+		switch an.FieldName(f) {
+		case "Type", "Major", "Minor":
+			return "<" + an.FieldName(f) + ">"
+		}
+		return ""
+	}
+	// pieces of a rendered string: literals and <Field> markers; "" when the shape is not understood
+	var pieces func(v ssa.Value, depth int) []string
+	pieces = func(v ssa.Value, depth int) []string {
+		if depth > 8 {
+			return nil
+		}
+		if s, ok := an.ConstString(v); ok {
+			return []string{s}
+		}
+		if d := docField(v); d != "" {
+			return []string{d}
+		}
+		switch x := v.(type) {
+		case *ssa.BinOp:
+			if x.Op == token.ADD {
+				l, r := pieces(x.X, depth+1), pieces(x.Y, depth+1)
+				if l == nil || r == nil {
+					return nil
+				}
+				return append(append([]string{}, l...), r...)
+			}
+		case *ssa.Call:
+			if an.CalleeIs(&x.Call, "fmt", "Sprintf") && len(x.Call.Args) == 2 {
+				format, ok := an.ConstString(x.Call.Args[0])
+				elems, ok2 := an.SliceElems(x.Call.Args[1])
+				if !ok || !ok2 {
+					return nil
+				}
+				var out []string
+				rest, i := format, 0
+				for {
+					k := strings.Index(rest, "%")
+					if k < 0 || k+1 >= len(rest) {
+						out = append(out, rest)
+						break
+					}
+					if rest[k+1] == '%' {
+						out = append(out, rest[:k+1])
+						rest = rest[k+2:]
+						continue
+					}
+					if rest[k+1] != 's' && rest[k+1] != 'v' || i >= len(elems) {
+						return nil
+					}
+					out = append(out, rest[:k])
+					if d := docField(elems[i]); d != "" {
+						out = append(out, d)
+					} else {
+						out = append(out, "<?>")
+					}
+					i++
+					rest = rest[k+2:]
+				}
+				return out
+			}
+		}
+		return nil
+	}
+	n := 0
+	for _, fn := range an.PkgFuncs(gpkg) {
+		an.AllInstrs(fn, func(in ssa.Instruction) {
+			v, ok := in.(ssa.Value)
+			if !ok {
+				return
+			}
+			// outermost renderings only: a Sprintf call, or the top of a concatenation chain
+			switch x := in.(type) {
+			case *ssa.Call:
+				if !an.CalleeIs(&x.Call, "fmt", "Sprintf") {
+					return
+				}
+			case *ssa.BinOp:
+				if x.Op != token.ADD {
+					return
+				}
+				if refs := x.Referrers(); refs != nil {
+					for _, r := range *refs {
+						if b, isB := r.(*ssa.BinOp); isB && b.Op == token.ADD {
+							return
+						}
+					}
+				}
+			default:
+				return
+			}
+			// does it mention Major or Minor at all?
+			mentions := false
+			var walk func(w ssa.Value, d int)
+			walk = func(w ssa.Value, d int) {
+				if d > 8 || w == nil {
+					return
+				}
+				if f := docField(w); f == "<Major>" || f == "<Minor>" {
+					mentions = true
+				}
+				switch y := w.(type) {
+				case *ssa.BinOp:
+					walk(y.X, d+1)
+					walk(y.Y, d+1)
+				case *ssa.Call:
+					if an.CalleeIs(&y.Call, "fmt", "Sprintf") && len(y.Call.Args) == 2 {
+						if elems, ok := an.SliceElems(y.Call.Args[1]); ok {
+							for _, e := range elems {
+								walk(e, d+1)
+							}
+						}
+					}
+				}
+			}
+			walk(v, 0)
+			if !mentions {
+				return
+			}
+			n++
+			ps := pieces(v, 0)
+			joined := strings.Join(ps, "")
+			ob := c.Ob(rule, an.NameOf(fn), "the version text is <type>.<major>.<minor>", in.Pos())
+			switch {
+			case ps == nil:
+				ob.Fail("the text built from the schema's version attributes in %s is not a Sprintf with %%s verbs or a concatenation: %s", an.NameOf(fn), an.Render(v))
+			case !strings.Contains(joined, "<Type>.<Major>.<Minor>"):
+				ob.Fail("%s renders %q: the generated beginString is not the schema's type.major.minor (for a FIX 4.2 schema every generated message would carry 8=FIX.2.4)", an.NameOf(fn), joined)
+			default:
+				ob.Ok("%q", joined)
+			}
+		})
+	}
+	c.Check(n >= 1, rule, "", "rendering of the schema's version attributes found", token.NoPos, fmt.Sprint(n), "no text built from Doc.Major/Doc.Minor found (anchor moved)")
 }
